@@ -31,7 +31,7 @@ JOBS = int(os.environ.get("VERIF_JOBS", "0")) or min(16, os.cpu_count() or 4)
 
 CBMC_BASE = ["--unwinding-assertions", "--pointer-overflow-check", "--undefined-shift-check",
              "--signed-overflow-check", "--drop-unused-functions", "--no-malloc-may-fail",
-             "--object-bits", "12"]
+             "--object-bits", "12", "--max-field-sensitivity-array-size", "256"]
 
 _print_lock = threading.Lock()
 
